@@ -73,17 +73,25 @@ def run_c01(tier):
         res.violation("TLC: bpm model violates %s" % (r["violated"] or "a property"), {"kind": "tlc", "log_tail": common.tail_nonreplay(r["text"], 60)})
     # --- call histories, executed in several processes
     cfgp = os.path.join(common.OUT, "MC_Session_%s_%d.cfg" % (tier, pid))
-    with open(cfgp, "w") as f:
-        f.write("CONSTANTS\n  MaxLen = %d\n  Wide = %s\n  Lockstep = \"\"\nINIT Init\nNEXT Next\nINVARIANT KeysFunctional\nINVARIANT Printer\nCHECK_DEADLOCK FALSE\n" % (
-            3 if tier == "quick" else 4, "FALSE" if tier == "quick" else "TRUE"))
-    r = common.run_tlc("MC_Session", cfgp, workers=4 if tier == "quick" else 12, timeout=3600, name="MC_Session_%s" % tier)
-    res.add_tlc(r)
-    if not r["ok"]:
-        res.violation("TLC: session model violates %s" % (r["violated"] or "a property"), {"kind": "tlc", "log_tail": common.tail_nonreplay(r["text"], 60)})
-        return res.finish()
     hist = os.path.join(common.OUT, "session_%s_%d.ndjson" % (tier, pid))
-    nh = common.extract_replay(r["log"], hist)
-    os.remove(r["log"])
+    nh = 0
+    open(hist, "w").close()
+    # thorough: every history of 4 calls over the core alphabet and every history of 3 calls over the wide one (4 calls over the
+    # wide alphabet are 700 000 histories x 8 processes: an hour of replay for little more than the two together)
+    for (maxlen, wide) in ([(3, "FALSE")] if tier == "quick" else [(4, "FALSE"), (3, "TRUE")]):
+        with open(cfgp, "w") as f:
+            f.write("CONSTANTS\n  MaxLen = %d\n  Wide = %s\n  Lockstep = \"\"\nINIT Init\nNEXT Next\nINVARIANT KeysFunctional\nINVARIANT Printer\nCHECK_DEADLOCK FALSE\n" % (maxlen, wide))
+        r = common.run_tlc("MC_Session", cfgp, workers=4 if tier == "quick" else 12, timeout=3600, name="MC_Session_%s_%d%s" % (tier, maxlen, wide))
+        res.add_tlc(r)
+        if not r["ok"]:
+            res.violation("TLC: session model violates %s" % (r["violated"] or "a property"), {"kind": "tlc", "log_tail": common.tail_nonreplay(r["text"], 60)})
+            return res.finish()
+        part = hist + ".main"
+        nh += common.extract_replay(r["log"], part)
+        os.remove(r["log"])
+        with open(hist, "a") as f:
+            f.write(open(part).read())
+        os.remove(part)
     # long histories over two calculators with different settings on the same map (every interleaving, incl. lockstep), per mode
     # ... and the histories over ONE map value overwritten in place by maps of the same size ("slot")
     for lm in ("m2", "m1", "m3", "m4", "slot"):
@@ -99,7 +107,7 @@ def run_c01(tier):
         with open(hist, "a") as f:
             f.write(open(part).read())
         os.remove(part)
-    nproc = 3 if tier == "quick" else 8
+    nproc = 3 if tier == "quick" else 6
     trace = os.path.join(common.OUT, "session_trace_%s_%d.ndjson" % (tier, pid))
     with open(trace, "w") as tf:
         for k in range(nproc):
